@@ -164,6 +164,7 @@ class Summary:
         self.ret_nested_inner: Set[tuple] = set()
         self.ret_inner_known: Set[tuple] = set()  # subset of the two above whose type is known to be mutable
         self.ret_types: Types = EMPTY
+        self.ret_tags: Set[str] = set()  # '@field' tags in the slice of any returned value (transitive)
         self.captures: Set[Tuple[tuple, int]] = set()  # (('P'|'I', src), dst)
         self.capture_w: Dict[Tuple[tuple, int], Witness] = {}
         self.globals: Dict[tuple, Witness] = {}  # (gname, root key) -> witness
@@ -191,7 +192,7 @@ class Summary:
     def signature(self):
         return (tuple(sorted((k, tuple(sorted(v))) for k, v in self.mutates.items())),
                 tuple(sorted(self.ret)), tuple(sorted(self.ret_top_inner)), tuple(sorted(self.ret_nested_inner)),
-                tuple(sorted(self.ret_inner_known)), self.ret_types,
+                tuple(sorted(self.ret_inner_known)), self.ret_types, tuple(sorted(self.ret_tags)),
                 tuple(sorted(self.captures)), tuple(sorted(self.globals)), tuple(sorted(self.rng)))
 
 
@@ -642,6 +643,8 @@ class FuncRun:
         s = self.summary
         f = self.f
         rets = list(self.returns)
+        for r in list(self.returns) + list(self.yields):
+            s.ret_tags |= {d for d in r.deps if d.startswith('@')}
         if f.is_generator:
             # the call returns a generator object; its elements are the yielded values
             s.ret.add(('F',))
@@ -1576,11 +1579,30 @@ class FuncRun:
         if kind == 'dict':
             k = self.ev(e.key, cenv)
             v = self.ev(e.value, cenv)
+            self._repeat_alias(e, e.value, v)
             inner = set(v.origins) if ty.maybe_mutable(v.types) is not False else set()
             return self.fresh(e, T(('dict', k.types, v.types)), inner)
         v = self.ev(e.elt, cenv)
+        if kind in ('list', 'set'):
+            self._repeat_alias(e, e.elt, v)
         inner = set(v.origins) if ty.maybe_mutable(v.types) is not False else set()
         return self.fresh(e, T((kind, v.types)), inner)
+
+    def _repeat_alias(self, comp, elt, v: AV):
+        """a comprehension whose element does not depend on the comprehension variables stores ONE object at
+        every position; if that object is mutable the positions alias each other"""
+        targets = set()
+        for g in comp.generators:
+            for x in ast.walk(g.target):
+                if isinstance(x, ast.Name):
+                    targets.add(x.id)
+        names = {x.id for x in ast.walk(elt) if isinstance(x, ast.Name)}
+        if names & targets:
+            return
+        if not isinstance(elt, ast.Name):
+            return  # a call / display / copy produces a new object per iteration
+        if ty.maybe_mutable(v.types) is True and not ty.shallow_immutable(v.types):
+            self.events.append(('repeat_alias', norm_stmt(comp), comp, ty.fmt_types(v.types)))
 
     def ex_ListComp(self, e, env):
         return self._comp(e, env, 'list')
@@ -1813,6 +1835,9 @@ class FuncRun:
             ww = w.via(*here)
             if k not in self.summary.rng or ww.better_than(self.summary.rng[k]):
                 self.summary.rng[k] = ww
+        # field-read tags of the callee's result are part of the caller's slice (transitive field coverage)
+        if s.ret_tags and self._dep_stack:
+            self._dep_stack[-1] |= s.ret_tags
         # result
         rtypes = s.ret_types
         if not rtypes:
